@@ -3,7 +3,7 @@
      <fam A|M|C> <single> <hsize> <has_slope> <has_inter> <nifti> <kmagic> <has_mat>
      <od int|->  <off> <dt> <slope nan|bits> <inter> <magic> <alias -|compat|smallest> <data> <aff>
      <resolved int|-> <unsupported [codes]> <wfail> <scale_s> <scale_i> <nslabs> <exts [sizes]> <nmat>
-     <mine_h> <mine_i> <mine_m>
+     <mine_h> <mine_i> <mine_m> <oserr: the injected exception is an OSError (seek_tell catches it)>
    ops:  run <k|-1> <case>    -> ok <res> n=<calls> st=<state> log=<calls>
          sweep <case>         -> ok <clean run> | k=0 <res> n st | k=1 ... (every call of the clean run failing in turn)
    state = off/dt/slope/inter/magic/alias/data/aff; a call = <H|I|M><s|t|c|w:chunk> *)
@@ -26,7 +26,7 @@ let string_of_call (k, c) =
   (match k with FH -> "H" | FI -> "I" | FM -> "M") ^
   (match c with CSeek _ -> "s" | CTell -> "t" | CClose -> "c" | CWrite ch -> "w:" ^ string_of_chunk ch)
 let parse args = match args with
-  | [fam; sg; hs; hsl; hin; nif; km; hm; od; off; dt; sl; it; mg; al; da; af; rsv; uns; wf; ss; si; ns; ex; nm; mh; mi; mm] ->
+  | [fam; sg; hs; hsl; hin; nif; km; hm; od; off; dt; sl; it; mg; al; da; af; rsv; uns; wf; ss; si; ns; ex; nm; mh; mi; mm; oe] ->
     let k = { fam = (match fam with "A" -> FAnalyze | "M" -> FMgh | "C" -> FCifti | _ -> failwith "fam");
               single = bool_of_string sg; hsize = z_of_string hs; has_slope = bool_of_string hsl;
               has_inter = bool_of_string hin; nifti = bool_of_string nif; kmagic = z_of_string km;
@@ -40,7 +40,7 @@ let parse args = match args with
     let scl = (sc_of_string ss, sc_of_string si) in
     let nsl = nat_of_int (int_of_string ns) in
     let d = { mine_h = bool_of_string mh; mine_i = bool_of_string mi; mine_m = bool_of_string mm } in
-    (fun o -> run_save o (fun _ _ -> rsv) (fun c -> not (List.mem c uns)) (fun _ _ -> wfail) (fun _ _ -> scl)
+    (fun o -> run_save o (bool_of_string oe) (fun _ _ -> rsv) (fun c -> not (List.mem c uns)) (fun _ _ -> wfail) (fun _ _ -> scl)
                 (fun _ -> nsl) (zlist_of_string ex) (nat_of_int (int_of_string nm)) d k od i)
   | _ -> failwith "bad case"
 let show (r, s) withlog =
